@@ -439,6 +439,11 @@ func buildInboxModel(res *Result, body J, me *ActorDir, srv *ServerSpec) *ibMode
 			if !ownedBy(t) {
 				continue
 			}
+			if !isCollType(typeOf(mustParseJ([]byte(before[t])))) {
+				m.fail = true
+				m.why = "an owned target is not a collection" // targets listed before it may already have been changed
+				break
+			}
 			if typ == "Add" {
 				m.targetAdd[t] = append(m.targetAdd[t], idsOf(body["object"])...)
 			} else {
@@ -509,17 +514,49 @@ func oracleInbox(c *DriveCtx, res *Result) {
 	if res.Spec.Expect == nil {
 		return
 	}
+	// a history: every top-level inbox POST is judged against the database as it was when that request started
+	var hist []*Task
+	for _, t := range res.Tasks {
+		if t.Parent == nil && t.EntryKind == "postInbox" && t.done && t.Snap != nil {
+			hist = append(hist, t)
+		}
+	}
+	sort.Slice(hist, func(i, j int) bool { return hist[i].StartSeq < hist[j].StartSeq })
+	for i, t := range hist {
+		if i > 0 && hist[i-1].EndSeq > t.StartSeq {
+			return // overlapping requests: not a history (C08's business)
+		}
+	}
+	saveB, saveA := res.Before, res.After
+	defer func() { res.Before, res.After = saveB, saveA }()
+	for i, t := range hist {
+		b := map[string]map[string]string{}
+		a := map[string]map[string]string{}
+		for h, v := range saveB {
+			b[h], a[h] = v, saveA[h]
+		}
+		b[t.Srv] = t.Snap
+		if i+1 < len(hist) && hist[i+1].Srv == t.Srv {
+			a[t.Srv] = hist[i+1].Snap
+		}
+		res.Before, res.After = b, a
+		res.faultedDeref, res.faultTask = nil, t.ID
+		oracleInboxOne(c, res, t)
+		res.faultedDeref, res.faultTask = nil, ""
+	}
+}
+
+func oracleInboxOne(c *DriveCtx, res *Result, t *Task) {
 	s := res.Sim
-	t := res.Sim.byID["r0"]
-	if len(res.Spec.Faults) > 0 {
-		// fault class: a request that still answers 200 although a seam call failed must have done everything it owed
-		// (a swallowed error shows up as a missing effect); a request that fails may have done a prefix of its effects
-		if t == nil || !t.done || t.Err != nil || t.Rec == nil || t.Rec.Status != 200 {
+	if taskFaulted(res, t) {
+		// fault class: a request that still answers 200 although a seam call failed (or its context was cancelled) must have
+		// done everything it owed (a swallowed error shows up as a missing effect); a request that fails may have done a prefix
+		if t.Err != nil || t.Rec == nil || t.Rec.Status != 200 {
 			return
 		}
 		s.probe("inbox-200-despite-fault")
 	}
-	if t == nil || !t.done || t.Panic != nil || t.EntryKind != "postInbox" {
+	if t.Panic != nil {
 		return
 	}
 	srv := s.World.Servers[t.Srv]
@@ -589,7 +626,7 @@ func oracleInbox(c *DriveCtx, res *Result) {
 	prop := "C04"
 	if m.fail || m.either {
 		prop = "C06"
-		if typ == "Create" || m.why == "Update with an object given by IRI only" {
+		if typ == "Create" || m.why == "Update with an object given by IRI only" || m.why == "an owned target is not a collection" {
 			prop = "C04"
 		}
 	}
@@ -802,15 +839,64 @@ func oracleInbox(c *DriveCtx, res *Result) {
 	}
 }
 
+// genInboxHistory: two activities of one kind, one after the other (state carried between requests would show).
+func genInboxHistory(r *Rng, k int) *RunSpec {
+	sp := genInbox(r, "C04", k)
+	st := newStd(defaultOpt())
+	first, _ := parseJ(sp.Requests[0].Body)
+	typ := Pick(r, []string{"Add", "Remove", "Remove", "Like", "Announce", "Follow", "Follow"})
+	mkBody := func(i int) J {
+		b := J{"@context": asCtx, "type": typ, "id": fmt.Sprintf("https://%s/act/h%d-%d", hostR, k, i), "actor": st.Dave}
+		switch typ {
+		case "Add":
+			b["object"] = fmt.Sprintf("https://%s/n/h%d", hostR, i)
+			b["target"] = []string{st.Col1, st.OCol1}
+		case "Remove":
+			b["object"] = Pick(r, []string{st.Dave, st.Erin})
+			b["target"] = []string{st.Col1, st.OCol1, st.Alice.Followers}
+			if i == 0 && r.Bool() {
+				b["target"] = []string{st.Col1, st.Note1} // an owned non-collection target: this Remove fails half-way
+			}
+		case "Follow":
+			b["object"] = st.Alice.ID // the same actor follows twice
+		default:
+			b["object"] = Pick(r, []string{st.Note1, st.Note2})
+		}
+		return b
+	}
+	_ = first
+	r0 := inboxReq("r0", st.Alice, hostA, mkBody(0))
+	r1 := inboxReq("r1", st.Alice, hostA, mkBody(1))
+	r1.After = []string{"r0"}
+	sp.Requests = []ReqSpec{r0, r1}
+	sp.World.Servers[0].Docs = append(sp.World.Servers[0].Docs,
+		DocSpec{st.Col1, mustJSON(J{"@context": asCtx, "type": "Collection", "id": st.Col1, "items": []string{st.Dave, st.Erin}})},
+		DocSpec{st.OCol1, mustJSON(J{"@context": asCtx, "type": "OrderedCollection", "id": st.OCol1, "orderedItems": []string{st.Erin, st.Dave}})})
+	sp.World.Servers[0].Blocked = nil
+	sp.Gen = fmt.Sprintf("inbox/C04/%d/history-%s", k, typ)
+	return sp
+}
+
 func init() {
 	register(&PropDef{
 		ID: "C04", Level: "exploration", Engine: "fedsim",
-		Rule: "case = one activity of a handled type (Create Update Delete Follow Accept Reject Add Remove Like Announce Undo Block, plus Listen for the default callback) posted by a remote peer to a local inbox, with 1-3 objects/targets/actors as IRIs or embedded values, owned or foreign, ordered or unordered collections, pre-existing or absent likes/shares, OnFollow in {nothing, accept, reject}, per type no callback / wrapped / overriding 'other', fetch faults on objects given by IRI; oracle = executable model of the documented default effects applied to the database snapshot, compared document by document with the real final database, plus the automatic Accept/Reject on the wire and the callback log. distinct = distinct event sequences.",
+		Rule: "case = one activity of a handled type (Create Update Delete Follow Accept Reject Add Remove Like Announce Undo Block, plus Listen for the default callback) posted by a remote peer to a local inbox, with 1-3 objects/targets/actors as IRIs or embedded values, owned or foreign, ordered or unordered collections, pre-existing or absent likes/shares, OnFollow in {nothing, accept, reject}, per type no callback / wrapped / overriding 'other', fetch faults on objects given by IRI; one case in six is swept with every single seam-call fault, one in twelve with a cancellation of the request context at every seam call, one in twelve is a two-request history (same kind twice, swept with single faults) judged request by request against the database as it was when the request started; under a fault or cancellation a request that still answers 200 must show all its effects; oracle = executable model of the documented default effects applied to the database snapshot, compared document by document with the real final database, plus the automatic Accept/Reject on the wire and the callback log. distinct = distinct event sequences.",
 		QuickCases: 1500, QuickBudgetS: 60, ThoroughBudgetS: 600,
 		Drive: func(c *DriveCtx, r *Rng, k int) {
 			if k%6 == 0 {
 				seed := r.s
 				c.singleFaultSweep(func() *RunSpec { return genInbox(NewRng(seed), "C04", k) }, faultKindFor)
+				return
+			}
+			if k%12 == 3 {
+				// the peer hangs up: the request's context is cancelled at one seam call after another
+				seed := r.s
+				c.singleFaultSweep(func() *RunSpec { return genInbox(NewRng(seed), "C04", k) }, func(string) string { return "ctx_cancel" })
+				return
+			}
+			if k%12 == 9 {
+				seed := r.s
+				c.singleFaultSweep(func() *RunSpec { return genInboxHistory(NewRng(seed), k) }, faultKindFor)
 				return
 			}
 			c.Exec(genInbox(r, "C04", k))
